@@ -202,6 +202,136 @@ def obligations(tier):
             desc=f'cirq.act_on(gate.on(axes), CliffordTableauSimulationState) for {len(MENU)} Clifford gates (all 24 single-qubit Cliffords, powers, shifted, SWAP/ISWAP/parity via decomposition) on an arbitrary symbolic tableau vs conjugation table from cirq.unitary(gate)',
         )
     )
+    # ---- (c) CliffordTableau._measure from an arbitrary VALID tableau --------------------------------------------
+    from oracles.pauli import BY_XZ
+
+    # single-qubit Pauli multiplication table from the 2x2 matrices: (x1,z1,x2,z2) -> (x,z, k) with P1 P2 = i^k P
+    MUL = {}
+    for a in BY_XZ:
+        for b in BY_XZ:
+            M = BY_XZ[a] @ BY_XZ[b]
+            for c_ in BY_XZ:
+                for k in range(4):
+                    if np.allclose(M, (1j**k) * BY_XZ[c_]):
+                        MUL[a + b] = (c_[0], c_[1], k)
+
+    def XOR(a, b):
+        if isinstance(a, (bool, np.bool_)) and isinstance(b, (bool, np.bool_)):
+            return bool(a) != bool(b)
+        if isinstance(a, (bool, np.bool_)):
+            a = SBool(bool(a))
+        return a ^ b
+
+    def mul_rows(cx, xa, za, ra, xb, zb, rb, n):
+        """(x, z, r, ok) of the product of two signed Pauli rows; ok = phase exponent is even (Hermitian)"""
+        xs_, zs_ = [], []
+        ksum = 0
+        for k in range(n):
+            bits = [xa[k], za[k], xb[k], zb[k]]
+            if cx.mode == 'concrete':
+                x_, z_, ph = MUL[tuple(int(bool(b)) for b in bits)]
+                xs_.append(bool(x_)); zs_.append(bool(z_)); ksum += ph
+            else:
+                tbl = {key: ((v[0], v[1], v[2] & 1, (v[2] >> 1) & 1), 0) for key, v in MUL.items()}
+                o = OP.sym_lookup(bits, tbl, 4)
+                xs_.append(o[0]); zs_.append(o[1])
+                ksum = ksum + o[2].to_sint() + 2 * o[3].to_sint()
+        if cx.mode == 'concrete':
+            return xs_, zs_, (bool(ra) != bool(rb)) != bool((ksum % 4) // 2), (ksum % 2 == 0)
+        half = (ksum % 4) // 2
+        return xs_, zs_, XOR(XOR(ra, rb), half == 1), (ksum % 2) == 0
+
+    def measure_body(cx, wrong=False, n=2):
+        q = cx.choose('q', n)
+        tab = sym_tableau(cx, n)
+        # representation invariant: symplectic relations between all rows
+        conds = []
+        for i in range(2 * n):
+            for j in range(i + 1, 2 * n):
+                acc = False
+                for k in range(n):
+                    t1 = tab.xs[i, k] & tab.zs[j, k] if cx.mode != 'concrete' else bool(tab.xs[i, k]) and bool(tab.zs[j, k])
+                    t2 = tab.zs[i, k] & tab.xs[j, k] if cx.mode != 'concrete' else bool(tab.zs[i, k]) and bool(tab.xs[j, k])
+                    acc = XOR(XOR(acc, t1), t2) if cx.mode != 'concrete' else ((acc != t1) != t2)
+                want = (j == i + n)
+                conds.append(acc if want else NOT(acc))
+        cx.assume(AND(conds))
+        x0, z0, r0 = tab.xs.copy(), tab.zs.copy(), tab.rs.copy()
+
+        class Coin(np.random.RandomState):
+            def randint(self_, *a, **k):
+                return cx.choose('coin', 2)
+
+        out = tab._measure(q, Coin(0))
+        # which branch did the code take?  first stabilizer row with an X component on q
+        anti = [x0[i, q] for i in range(2 * n)]
+        p = None
+        for i in range(n, 2 * n):
+            if bool(anti[i]):
+                p = i
+                break
+        checks = []
+        if p is None:
+            # deterministic: (-1)^out Z_q = product of the stabilizers S_{i+n} over destabilizers i anticommuting with Z_q
+            xa = [False] * n if cx.mode == 'concrete' else [SBool(False)] * n
+            za = list(xa)
+            ra = False if cx.mode == 'concrete' else SBool(False)
+            okall = True
+            for i in range(n):
+                if bool(anti[i]):
+                    xa, za, ra, ok = mul_rows(cx, xa, za, ra, list(x0[i + n]), list(z0[i + n]), r0[i + n], n)
+                    okall = ok if okall is True else (okall & ok if cx.mode != 'concrete' else (okall and ok))
+            for k in range(n):
+                checks.append(EQ(xa[k], False))
+                checks.append(EQ(za[k], k == q))
+            checks.append(okall)
+            exp_out = ra
+            if wrong:
+                exp_out = NOT(exp_out)
+            checks.append(EQ(bool(out) if cx.mode == 'concrete' else SBool(bool(out)), exp_out) if cx.mode == 'concrete' else (exp_out if out else NOT(exp_out)))
+            for i in range(2 * n):
+                checks.append(EQ(tab.rs[i], r0[i]))
+                for k in range(n):
+                    checks.append(EQ(tab.xs[i, k], x0[i, k]))
+                    checks.append(EQ(tab.zs[i, k], z0[i, k]))
+        else:
+            sp = (list(x0[p]), list(z0[p]), r0[p])
+            for i in range(2 * n):
+                if i == p:
+                    # new stabilizer: (-1)^out Z_q
+                    for k in range(n):
+                        checks.append(EQ(tab.xs[i, k], False))
+                        checks.append(EQ(tab.zs[i, k], k == q))
+                    checks.append(EQ(tab.rs[i], bool(out) != wrong))
+                elif i == p - n:
+                    for k in range(n):
+                        checks.append(EQ(tab.xs[i, k], sp[0][k]))
+                        checks.append(EQ(tab.zs[i, k], sp[1][k]))
+                    checks.append(EQ(tab.rs[i], sp[2]))
+                elif bool(anti[i]):
+                    xa, za, ra, ok = mul_rows(cx, list(x0[i]), list(z0[i]), r0[i], sp[0], sp[1], sp[2], n)
+                    for k in range(n):
+                        checks.append(EQ(tab.xs[i, k], xa[k]))
+                        checks.append(EQ(tab.zs[i, k], za[k]))
+                    checks.append(EQ(tab.rs[i], ra))
+                    checks.append(ok)
+                else:
+                    for k in range(n):
+                        checks.append(EQ(tab.xs[i, k], x0[i, k]))
+                        checks.append(EQ(tab.zs[i, k], z0[i, k]))
+                    checks.append(EQ(tab.rs[i], r0[i]))
+        cx.check(AND(checks), label='tableau._measure post-state and outcome')
+
+    for n_ in ([2] if tier == 'quick' else [2, 3]):
+        obs.append(
+            Obligation(
+                f'tableau.measure.n{n_}',
+                lambda cx, n_=n_: measure_body(cx, n=n_),
+                twin=lambda cx, n_=n_: measure_body(cx, wrong=True, n=n_),
+                opts={'weight': 50, 'max_paths': 400000, 'depth_limit': 2000},
+                desc=f'CliffordTableau._measure(q) from an ARBITRARY VALID {n_}-qubit tableau (all bits symbolic, symplectic invariant assumed), both coin outcomes: random case - the pivot row becomes (-1)^outcome Z_q, its destabilizer the old pivot, every other row (stabilizers AND destabilizers) anticommuting with Z_q is multiplied by the pivot with the matrix-derived sign, the rest unchanged; deterministic case - outcome equals the sign of Z_q in the stabilizer group and the tableau is unchanged',
+            )
+        )
     return obs
 
 
@@ -218,6 +348,7 @@ def main(tier, seed=0, replay=None, only=None, procs=None):
         'tableau_qubits': '<=2 (quick) / <=3 (thorough), all axis tuples',
         'exponent_box': [-4, 4],
         'act_on_gate_menu': 'X,Y,Z half-integer powers, H, CZ, CX, SWAP integer powers, S, ISWAP, shifted gates, PhasedXZ/PhasedX Cliffords, CY, YY, XX**0.5, ZZ**0.5, all 24 SingleQubitCliffordGate',
-        'outside': ['CliffordTableau._measure / then / inverse and CH-form (separate obligations when present)', 'n > 3'],
+        'measure': 'n = 2 (quick) / 2, 3 (thorough), every qubit, arbitrary valid tableau, both coin outcomes',
+        'outside': ['CliffordTableau.then / inverse', 'StabilizerStateChForm (CH form)', 'CliffordGate group laws', 'n > 3'],
     }
     return run_check(PID, tier, 'checks.C13', SHIMS, LEVEL, BASE_ASSUMPTIONS, bounds, seed=seed, replay=replay, only=only, procs=procs)
